@@ -220,6 +220,9 @@ class _Builder:
             if rng.random() < 0.2 and len(names) >= 1:
                 # one array under two output names
                 names.append([f"out{len(names)}", names[0][1]])
+            if collide_names and rng.random() < 0.5:
+                # an output that carries the name of a user input
+                names[rng.randrange(len(names))][0] = "x"
             rk["outputs"] = names
 
     def spec(self, topology):
@@ -343,7 +346,7 @@ def generate(seed: int, index: int, profile: str = "default") -> dict:
     for r in range(nranks):
         for _ in range(rng.randint(0, 2)):
             b.compute(r)
-    b.finish()
+    b.finish(collide_names=rng.random() < 0.08)
     s = b.spec(topo)
     s["seed"], s["index"], s["profile"] = seed, index, profile
     return s
@@ -452,6 +455,47 @@ def comm_graph(spec):
     return gs, gr
 
 
+def resolve_alias(rk, i):
+    while rk["nodes"][i]["op"] == "alias":
+        i = rk["nodes"][i]["a"]
+    return i
+
+
+def _all_recvs_below(rk, i, memo):
+    """receive nodes reachable from node i through every edge (operands, aliases, pass-through
+    AND the payload of stapled sends) — what a structural dependency walk sees"""
+    if i in memo:
+        return memo[i]
+    nd = rk["nodes"][i]
+    res = frozenset([i]) if nd["op"] == "recv" else frozenset()
+    for k in ("a", "b", "data", "pass"):
+        if k in nd:
+            res |= _all_recvs_below(rk, nd[k], memo)
+    memo[i] = res
+    return res
+
+
+def known_patterns(spec):
+    """spec-level predicates naming the program shapes of the defects found on the unchanged tree"""
+    sends, _ = comm_ops(spec)
+    fwd = holder = False
+    for s in sends:
+        rk = spec["ranks"][s["rank"]]
+        data = rk["nodes"][s["node"]]["data"]
+        if rk["nodes"][resolve_alias(rk, data)]["op"] == "recv":
+            fwd = True
+        if _all_recvs_below(rk, data, {}) != recv_deps(rk, data):
+            holder = True
+    out_in = False
+    for rk in spec["ranks"]:
+        live = live_nodes(rk)
+        innames = {rk["nodes"][i]["name"] for i in live if rk["nodes"][i]["op"] == "input"}
+        if any(nm in innames for nm, _ in rk["outputs"]):
+            out_in = True
+    return {"send_of_unmodified_recv": fwd, "payload_through_send_holder": holder,
+            "output_named_like_input": out_in}
+
+
 def stats(spec):
     sends, recvs = comm_ops(spec)
     return {"nranks": spec["nranks"], "ncomm": len(sends), "topology": spec.get("topology"),
@@ -461,7 +505,8 @@ def stats(spec):
                                              spec["ranks"][s["rank"]]["nodes"][s["node"]]["data"])),
             "forwarded_unchanged": sum(
                 1 for s in sends
-                if spec["ranks"][s["rank"]]["nodes"][spec["ranks"][s["rank"]]["nodes"][s["node"]]["data"]]["op"] == "recv"),
+                if spec["ranks"][s["rank"]]["nodes"][resolve_alias(
+                    spec["ranks"][s["rank"]], spec["ranks"][s["rank"]]["nodes"][s["node"]]["data"])]["op"] == "recv"),
             "holder_on_recv": sum(
                 1 for s in sends
                 if spec["ranks"][s["rank"]]["nodes"][spec["ranks"][s["rank"]]["nodes"][s["node"]]["pass"]]["op"] == "recv"),
